@@ -179,9 +179,14 @@ def enc_header(h):
     def f(x):
         return ",".join(str(ord(ch)) for ch in x)
     ids = list(h.blocks)
-    items = [(k, h.blocks[k]) for k in ids]
-    blocks = ";".join(f(k) + "~" + f(v) for k, v in items)
-    odd = ""
+    items, odd = [], ""
+    for k in ids:
+        try:
+            items.append((k, h.blocks[k]))
+        except Exception as e:  # noqa: BLE001 - iteration yields an id that item access refuses
+            items.append((k, "!" + type(e).__name__))
+            odd = "/!inconsistent-mapping"
+    blocks = ";".join(f(str(k)) + "~" + f(str(v)) for k, v in items)
     if len(h.blocks) != len(ids) or not all(k in h.blocks for k in ids) or len(set(ids)) != len(ids):
         odd = "/!inconsistent-mapping"
     return "H:" + "/".join([f(h.version_id), f(h.key_usage), f(h.algorithm), f(h.mode_of_use),
@@ -807,9 +812,7 @@ class Case:
             self.impl_fail.append(_SHARED_EXC.pop())
             del _SHARED_EXC[:]
         line = "\t".join([op or fn.split(".")[-1]] + toks + ([enc_b(r.entropy)] if with_entropy else []))
-        self.lines.append(line)
-        self.expect.append(canon_impl(r, tok) if compare else None)
-        self.stream.append(stream)
+        self.line(line, canon_impl(r, tok) if compare else None, stream)
         if not with_entropy and r.entropy:
             self.impl_fail.append(f"{fn} drew {len(r.entropy)} bytes of OS entropy although it is deterministic")
         if with_entropy and r.ok and r.entropy and isinstance(fn, str):
@@ -830,6 +833,13 @@ class Case:
         return r
 
     def line(self, line, expect=None, stream="plain"):
+        if "/!inconsistent-mapping" in line:
+            # the implementation's object cannot be described to the model (its optional-block mapping disagrees with itself:
+            # iteration yields ids that item access refuses, or len / membership differ): that is the implementation's failure;
+            # the model is asked about an empty header instead so that the reply indices stay aligned
+            if "the optional-block mapping of a header object disagrees with itself (iteration, item access, len, membership)" not in self.impl_fail:
+                self.impl_fail.append("the optional-block mapping of a header object disagrees with itself (iteration, item access, len, membership)")
+            line = re.sub(r"H:[^\t]*", "H:65/48,48/48/48/48,48/48/48,48/", line)
         self.lines.append(line)
         self.expect.append(expect)
         self.stream.append(stream)
